@@ -47,11 +47,13 @@ def replay_rqs(rqs, seed, frontend="wsgi", prefix="/", backend="tree"):
             elif op == "Proppatch":
                 kind = s.events[-1]["audit"]["colls"].get(rq["c"], {}).get("kind", "calendar") \
                     if s.events else "calendar"
-                p = rq["p"]
-                if p == "color":
-                    p = "abcolor" if kind == "addressbook" else "calcolor"
-                v = VALUES[(rq["p"], rq["v"])] if rq["set"] else None
-                s.proppatch(rq["c"], p, v)
+                ops = []
+                for x in rq["ins"]:
+                    p = x["p"]
+                    if p == "color":
+                        p = "abcolor" if kind == "addressbook" else "calcolor"
+                    ops.append((p, VALUES[(x["p"], x["v"])] if x["set"] else None))
+                s.propupdate(rq["c"], ops)
             elif op == "Restart":
                 s.restart()
         return s.trace(seed), s.concrete
